@@ -91,6 +91,8 @@ class Facts:
                 self.adts[a["path"]] = a
         self.n_functions = sum(1 for b in self.bodies.values() if b["kind"] in ("Fn", "AssocFn", "Closure"))
         self._closures = None
+        global CURRENT
+        CURRENT = self
 
     # ---- lookup -----------------------------------------------------
     def fns(self, name=None, crate=None, self_ty=None, path_contains=None, kinds=("Fn", "AssocFn")):
@@ -411,17 +413,28 @@ def adt_ctor(e):
     return None
 
 
-def find_matches(body, scrut_ty_suffix=None, pred=None):
-    """All Match nodes in body's THIR whose scrutinee type (refs peeled) ends with suffix."""
-    res = []
-    for m in exprs(body["thir"], "Match"):
-        st = m["scrut"].get("ty", "")
-        stc = st.replace("&", "").replace("mut ", "").strip()
-        if scrut_ty_suffix is not None and not (stc == scrut_ty_suffix or stc.endswith("::" + scrut_ty_suffix)):
-            continue
-        if pred and not pred(m):
-            continue
-        res.append(m)
+CURRENT = None      # the Facts loaded last (rules work on one fact set per process)
+
+
+def find_matches(body, scrut_ty_suffix=None, pred=None, deep=True):
+    """All Match nodes in body's THIR whose scrutinee type (refs peeled) ends with suffix. When the body itself has
+    none, the private helpers it calls (same crate, one level) and its closures are searched: a table that was moved
+    into a helper function is still the function's table."""
+    def local(b):
+        res = []
+        for m in exprs(b["thir"], "Match"):
+            st = m["scrut"].get("ty", "")
+            stc = st.replace("&", "").replace("mut ", "").strip()
+            if scrut_ty_suffix is not None and not (stc == scrut_ty_suffix or stc.endswith("::" + scrut_ty_suffix)):
+                continue
+            if pred and not pred(m):
+                continue
+            res.append(m)
+        return res
+    res = local(body)
+    if not res and deep and CURRENT is not None and "path" in body:
+        for b in family(CURRENT, body, depth=1)[1:]:
+            res += local(b)
     return res
 
 
